@@ -1,5 +1,7 @@
 mod rng;
 mod p_diff;
+mod p_consts;
+mod p_config;
 
 use std::io::{BufWriter, Write};
 
@@ -11,6 +13,8 @@ fn main() {
     let mut w = BufWriter::with_capacity(1 << 20, stdout.lock());
     match args[0].as_str() {
         "diff" => p_diff::main(&args[1..], &mut w),
+        "config" => p_config::main(&args[1..], &mut w),
+        "consts" => p_consts::main(&args[1..], &mut w),
         x => { eprintln!("unknown subcommand {}", x); std::process::exit(2); }
     }
     w.flush().unwrap();
